@@ -124,6 +124,7 @@ impl Director for D {
             progress: vec![],
             results,
             install_result: "r".into(),
+            await_last_ack: true,
         }
     }
 }
